@@ -670,6 +670,170 @@ def judge_f2(case, im, mo):
                 return
 
 
+
+# ------------------------------------------------------------------------------------------------ BundleFlattener's re-connection
+def _bc_tree(rng, depth, names):
+    """a bundle definition tree: leaves with widths, sub-bundles (plain, as far as connections care)"""
+    names = list(names)
+    rng.shuffle(names)
+    nsig = rng.randint(0 if depth > 0 else 1, 2)
+    sigs = [{"n": names[i], "w": rng.randint(1, 3), "port": False, "dir": "none", "src": None, "dest": None} for i in range(nsig)]
+    subs = []
+    if depth > 0:
+        for j in range(rng.randint(0 if nsig else 1, 2)):
+            subs.append({"n": names[nsig + j], "flip": rng.random() < 0.3, "role": None, "of": _bc_tree(rng, depth - 1, names)})
+    return {"sigs": sigs, "subs": subs}
+
+
+def _bc_leaves(t, pre=()):
+    out = [(pre + (s["n"],), s["w"]) for s in t["sigs"]]
+    for sub in t["subs"]:
+        out += _bc_leaves(sub["of"], pre + (sub["n"],))
+    return out
+
+
+def gen_bc(rng):
+    """The port's bundle type `T`; the parent's bundle instances: `b0` of type T, `b1` of a type that holds a T as sub-bundle `inner`
+    (next to other members); signals; and what is written onto the port: b0, a reference to b1.inner, or an anonymous bundle built
+    member by member (scalars, slices, references to leaves, bundle instances of a sub-bundle's type, references to sub-bundles,
+    nested anonymous bundles), fields in any order — sometimes with a member left out or a whole bundle where a signal is needed."""
+    T = _bc_tree(rng, rng.choice([0, 1, 1, 2]), ["x", "y", "z", "u", "v"])
+    wrap = {"sigs": [{"n": "k", "w": 1, "port": False, "dir": "none", "src": None, "dest": None}],
+            "subs": [{"n": "inner", "flip": rng.random() < 0.5, "role": None, "of": T}]}
+    subtypes = {}   # a bundle instance per sub-bundle type of T, for use as a member
+
+    def member(t, path, depth):
+        """a BConn for the whole of tree `t` (which sits at `path` of T)"""
+        r = rng.random()
+        if r < 0.25:
+            return {"k": "ref", "root": "b0", "path": list(path)} if path else {"k": "inst", "n": "b0"}
+        if r < 0.45:
+            return {"k": "ref", "root": "b1", "path": ["inner"] + list(path)}
+        if r < 0.6 and path:
+            nm = "s_" + "_".join(path)
+            subtypes[nm] = t
+            return {"k": "inst", "n": nm}
+        fields = []
+        for sg in t["sigs"]:
+            rr = rng.random()
+            if rr < 0.4:
+                c = {"k": "scalar", "c": {"k": "sig", "n": f"w{sg['w']}", "w": sg["w"]}}
+            elif rr < 0.6:
+                c = {"k": "scalar", "c": {"k": "slice", "p": {"k": "sig", "n": "bus", "w": 8}, "i": {"s": 1, "e": 1 + sg["w"], "st": None}}}
+            elif rr < 0.8:
+                c = {"k": "ref", "root": "b0", "path": list(path) + [sg["n"]]}
+            else:
+                c = {"k": "ref", "root": "b1", "path": ["inner"] + list(path) + [sg["n"]]}
+            fields.append([sg["n"], c])
+        for sub in t["subs"]:
+            fields.append([sub["n"], member(sub["of"], tuple(path) + (sub["n"],), depth + 1)])
+        rng.shuffle(fields)
+        return {"k": "anon", "fields": fields}
+
+    conn = member(T, (), 0)
+    fault = None
+    if conn["k"] == "anon" and conn["fields"] and rng.random() < 0.2:
+        fault = "missing"
+        conn["fields"].pop(rng.randrange(len(conn["fields"])))
+    return {"T": T, "wrap": wrap, "subtypes": subtypes, "conn": conn, "fault": fault}
+
+
+def impl_bc(case):
+    import itertools
+    import hdl21.elab as elab
+    c10 = __import__("props.c10", fromlist=["x"])
+    cnt = itertools.count()
+
+    def mkdef(tree, name):
+        b = h.Bundle(name=f"{name}{next(cnt)}")
+        for sg in tree["sigs"]:
+            setattr(b, sg["n"], h.Signal(width=sg["w"]))
+        for sub in tree["subs"]:
+            setattr(b, sub["n"], mkdef(sub["of"], name + "_" + sub["n"])(flipped=sub["flip"]))
+        return b
+
+    try:
+        T = mkdef(case["T"], "T")
+        W = h.Bundle(name="W")
+        W.k = h.Signal()
+        W.inner = T(flipped=case["wrap"]["subs"][0]["flip"])
+        inner = h.Module(name="BcInner")
+        inner.p = T(port=True)
+        top = h.Module(name="BcTop")
+        top.b0 = T()
+        top.b1 = W()
+        for nm, t in case["subtypes"].items():
+            # an instance of a type of the very shape of the sub-bundle it stands for (its own definition object)
+            top.add(mkdef(t, "S")(), name=nm)
+        top.bus = h.Signal(width=8)
+        for w in (1, 2, 3):
+            top.add(h.Signal(width=w), name=f"w{w}")
+
+        def mk(c):
+            if c["k"] == "inst":
+                return top.get(c["n"])
+            if c["k"] == "ref":
+                r = top.get(c["root"])
+                for seg in c["path"]:
+                    r = getattr(r, seg)
+                return r
+            if c["k"] == "scalar":
+                sc = c["c"]
+                if sc["k"] == "sig":
+                    return top.get(sc["n"])
+                i = sc["i"]
+                return top.get(sc["p"]["n"])[i["s"]:i["e"]]
+            return h.AnonymousBundle(**{f: mk(v) for f, v in c["fields"]})
+
+        top.i = inner(p=mk(case["conn"]))
+    except Exception as ex:  # noqa
+        return {"construct": common.errstr(ex)[-200:]}
+    try:
+        default = elab.Elaborator.default().passes
+        upto = next(k for k, p in enumerate(default) if p.__name__ == "BundleFlattener") + 1
+        elab.Elaborator(passes=default[:upto]).elaborate(top)
+    except Exception as ex:  # noqa
+        return {"raise": common.errstr(ex)[-200:], "type": type(ex).__name__}
+    row = []
+    for pn, c in top.instances["i"].conns.items():
+        if isinstance(c, (h.Signal, h.Slice, h.Concat)):
+            row.append([pn, [[a, b] for a, b in pybits(c)]])
+        else:
+            row.append([pn, {"obj": type(c).__name__}])
+    return {"ok": row}
+
+
+def line_bc(case):
+    env = [["b0", case["T"]], ["b1", case["wrap"]]] + [[nm, t] for nm, t in case["subtypes"].items()]
+    return {"prop": "BC", "op": "reconnect", "env": env, "port": "p", "tree": case["T"], "conn": case["conn"]}
+
+
+def judge_bc(case, im, mo):
+    if "construct" in im:
+        yield ("corr", f"the connection could not be written: {im['construct']}")
+        return
+    if "error" in mo:
+        if "ok" in im:
+            yield ("pred", f"a bundle connection the pass must refuse ({mo['error']}) was made: {im['ok']}")
+        return
+    if "raise" in im:
+        yield ("corr", f"a well-formed bundle connection was refused: {im['raise']}")
+        return
+    got = {p: b for p, b in im["ok"]}
+    want = {p: b for p, b in mo["ok"]}
+    if sorted(got) != sorted(want):
+        yield ("pred", f"flattened ports connected: {sorted(got)}, the port's type has {sorted(want)}")
+        return
+    for p in want:
+        if got[p] != want[p]:
+            yield ("pred", {"why": f"flattened port {p} is not on the member of its path", "impl": got[p], "model": want[p]})
+            return
+    if [p for p, _ in im["ok"]] != [p for p, _ in mo["ok"]]:
+        yield ("corr", "the flattened ports are connected in another order than the port's leaf order")
+
+
+SBC = common.Stream("bundleconn", impl_bc, line_bc, judge_bc, chunk=16)
+
 def run(ctx):
     rep = ctx.rep
     rep.extra["rule"] = (
@@ -729,6 +893,8 @@ def run(ctx):
     SIB.run(ctx, [gen_ib(ctx.rng) for _ in range(300 if ctx.quick else 6000)])
     # the array pass alone against ArrayPass.lean (theorems array_expansion / array_pass_accepts_iff / array_parts_partition)
     SAP.run(ctx, [gen_ap(ctx.rng) for _ in range(300 if ctx.quick else 6000)])
+    # BundleFlattener's re-connection of bundle-valued ports against BundleConn.lean (bundle_connection_pairs_by_path, …_memberwise, …_refusals)
+    SBC.run(ctx, [gen_bc(ctx.rng) for _ in range(300 if ctx.quick else 6000)])
     rep.extra["design_stats"] = stats
     rep.sample({"design": cases[2]["design"], "style": cases[2]["style"]})
 
